@@ -863,36 +863,23 @@ impl StorageEngine {
                     if len == 0 {
                         Vec::new()
                     } else {
-                        let start_idx = if start < 0 { 
-                            (len as isize + start).max(0) as usize
-                        } else {
-                            start as usize
-                        };
+                        // Negative indices count from the end; a range that starts past the
+                        // last element or stops before the first one is empty (both directions)
+                        let len_i = len as isize;
+                        let first = if start < 0 { len_i.saturating_add(start).max(0) } else { start };
+                        let last = if stop < 0 { len_i.saturating_add(stop) } else { stop }.min(len_i - 1);
                         
-                        let stop_idx = if stop < 0 {
-                            (len as isize + stop).max(0) as usize
-                        } else {
-                            stop as usize
-                        };
-                        
-                        if reverse {
-                            let real_start = len.saturating_sub(1).saturating_sub(stop_idx.min(len.saturating_sub(1)));
-                            let real_stop = len.saturating_sub(1).saturating_sub(start_idx.min(len.saturating_sub(1)));
-                            
-                            let range = skiplist.range_by_rank(real_start, real_stop);
+                        if last < 0 || first > last {
+                            Vec::new()
+                        } else if reverse {
+                            let (first, last) = (first as usize, last as usize);
+                            let range = skiplist.range_by_rank(len - 1 - last, len - 1 - first);
                             let mut items = range.items;
                             items.reverse();
                             items
                         } else {
-                            if start_idx >= len || start_idx > stop_idx {
-                                Vec::new()
-                            } else {
-                                let start_idx = start_idx.min(len - 1);
-                                let stop_idx = stop_idx.min(len - 1);
-                                
-                                let range = skiplist.range_by_rank(start_idx, stop_idx);
-                                range.items
-                            }
+                            let range = skiplist.range_by_rank(first as usize, last as usize);
+                            range.items
                         }
                     }
                 }
